@@ -456,6 +456,21 @@ class Fn:
         hits, _ = self.search(starts or [self.entry_state()], stop=stop, edge_ok=edge_ok)
         return [p for p in hits if is_target(self.ev(p)) and not is_guard(self.ev(p))]
 
+    def reaches_without_t(self, is_target, is_guard, track, starts=None, edge_ok=None):
+        """reaches_without with remembered truth values of the tracked literals"""
+        def stop(e):
+            return is_guard(e) or is_target(e)
+        hits, _ = self.search_tracked(starts or [self.entry_state()], stop=stop, track=track, edge_ok=edge_ok)
+        out = []
+        for p, _k in hits:
+            if is_target(self.ev(p)) and not is_guard(self.ev(p)) and p not in out:
+                out.append(p)
+        return out
+
+    def exit_reachable_without_t(self, is_guard, track, starts=None, edge_ok=None):
+        _, ex = self.search_tracked(starts or [self.entry_state()], stop=is_guard, track=track, edge_ok=edge_ok)
+        return ex
+
     def exit_reachable_without(self, is_guard, starts=None, edge_ok=None):
         _, ex = self.search(starts or [self.entry_state()], stop=is_guard, edge_ok=edge_ok)
         return ex
